@@ -505,8 +505,10 @@ def gen_tokctx_history(r):
             h.append("closing")
         elif q < 0.90:
             h.append("closingtok")
-        elif q < 0.97:
+        elif q < 0.95:
             h.append("next " + r.choice([";", ",", "(", ")"]))
+        elif q < 0.98:
+            h.append("printtok %d" % r.choice([0, 1]))
         else:
             h.append("state")
     h.append("state")
@@ -520,7 +522,8 @@ TOKCTX_CORPUS = [
     ["T ( ]", "state"],                                 # mismatch
     ["T )", "state"],                                   # no opener
     ["T ( ( ) ) < > { [ ] }", "state", "pushpair", "pushpair", "state", "pop", "popskip", "state", "next ;"],
-    ["T c c c", "state", "at 0", "end"],
+    ["T c c c", "state", "at 0", "end", "printtok 0", "printtok 1"],
+    ["T o ; o", "printtok 0", "printtok 1", "set 5", "printtok 0", "printtok 1", "state"],
     ["T o ; ( ; ) ; o", "next ;", "set 2", "next ;", "closing", "pushpair", "next ;", "pop", "set 4", "next ;", "state"],
 ]
 
